@@ -35,3 +35,41 @@ func verifC14DeltaReach() {
 	verifObserve("delta", a, b, x, y, len(data))
 	verifAssert(len(data) != 7, "reach")
 }
+
+// every bit width of the packed part: three values whose two deltas differ by a number of exactly w
+// significant bits (w = 0..32, a case split: the width steers the bit writer / reader loops), the
+// smaller delta and the first value arbitrary within one varint length class each.
+func verifC14DeltaWidths() {
+	// quick: the widths around the byte boundaries; thorough: every width
+	w := []int{0, 1, 7, 8, 9, 15, 16, 17, 24, 31, 32}[verifChoose("widthCase", 11)]
+	if verifThorough() {
+		w = verifChoose("width", 33)
+	}
+	v0 := int32(verifRange("first", -64, 63))
+	m := verifRange("minDelta", -64, 63)
+	var x int64
+	if w > 0 {
+		x = verifRange("deltaOfDelta", int64(1)<<uint(w-1), (int64(1)<<uint(w))-1)
+	}
+	d1, d2 := m, m+x
+	if verifNondetBool("largerDeltaFirst") {
+		d1, d2 = d2, d1
+	}
+	v1 := int64(v0) - d1
+	v2 := v1 - d2
+	verifAssume(v1 >= -(1<<31) && v1 < 1<<31 && v2 >= -(1<<31) && v2 < 1<<31 && d1 >= -(1<<31) && d1 < 1<<31 && d2 >= -(1<<31) && d2 < 1<<31)
+	vals := []int32{v0, int32(v1), int32(v2)}
+	enc := NewDeltaBitPackingEncoder()
+	enc.Reset()
+	for _, v := range vals {
+		enc.Add(v)
+	}
+	data := enc.Bytes()
+	dec := NewDeltaBitPackingDecoder(data)
+	for i := range vals {
+		verifAssert(dec.HasNext(), "decoder has next")
+		verifAssert(dec.Next() == vals[i], "delta-packed value survives")
+	}
+	verifAssert(!dec.HasNext(), "decoder ends")
+	verifReach("end")
+}
